@@ -130,6 +130,14 @@ def _init_worker(root, verif):
         sys.path.insert(0, verif)
     sys.setrecursionlimit(max(sys.getrecursionlimit(), 3000))
     build.activate(root)
+    quiet_library_logging()
+
+
+def quiet_library_logging():
+    import logging
+    lg = logging.getLogger('calmjs')
+    lg.addHandler(logging.NullHandler())
+    lg.propagate = False
 
 
 def _run_shard(args):
@@ -249,6 +257,7 @@ def main(argv=None):
     try:
         root = build.make_copy()
         build.activate(root)
+        quiet_library_logging()
     except Exception as e:
         print('HARNESS-ERROR: build failed: %s' % e)
         return 2
